@@ -211,6 +211,17 @@ class SFTPFile(BufferedFile):
                 # convert_status already called
         return chunk
 
+    def write(self, data):
+        """
+        Write data to the file; see `.BufferedFile.write`.
+        """
+        if len(self._rbuffer) > 0:
+            # readline()/read() fetched more than they returned: continue at
+            # the position the caller sees, not where the read-ahead ended
+            self._realpos = self._pos
+            self._rbuffer = bytes()
+        BufferedFile.write(self, data)
+
     def settimeout(self, timeout):
         """
         Set a timeout on read/write operations on the underlying socket or
